@@ -744,6 +744,29 @@ func sortedKeys[V any](m map[uint32]V) []uint32 {
 	return k
 }
 
+// hevcExtTags returns the evidence labels of the multilayer / 3D extension branches (esgen.HEVCSPSClasses /
+// HEVCPPSClasses labels, prefixed "grammar-") that the given parameter-set trees take, each label once.
+func hevcExtTags(sps []nalgen.HEVCSPSTree, pps []nalgen.HEVCPPSTree) []string {
+	seen := map[string]bool{}
+	var out []string
+	add := func(cs []string) {
+		for _, c := range cs {
+			if !(strings.Contains(c, "-multilayer-") || strings.Contains(c, "-3d-") || strings.Contains(c, "-cm-")) || seen[c] {
+				continue
+			}
+			seen[c] = true
+			out = append(out, "grammar-"+c)
+		}
+	}
+	for i := range sps {
+		add(esgen.HEVCSPSClasses(&sps[i]))
+	}
+	for i := range pps {
+		add(esgen.HEVCPPSClasses(&pps[i]))
+	}
+	return out
+}
+
 // genGrammar draws the data for a grammar case. It may adjust c.P so that the target uses populated maps / the
 // full VUI parse.
 func genGrammar(t *rapid.T, c *esCase, kind int) {
@@ -839,6 +862,7 @@ func genGrammar(t *rapid.T, c *esCase, kind int) {
 		tr := esgen.HEVCGenSPS(t, esgen.HEVCSPSOpts{ID: -1, Log2Poc: -1, SAO: -1}, "")
 		units = []unit{func(h *nalgen.Hostile) []byte { n, _ := nalgen.HEVCWriteSPSH(tr, h); return n }}
 		pack = single
+		c.tags = append(c.tags, hevcExtTags([]nalgen.HEVCSPSTree{*tr}, nil)...)
 	case gHEVCPPS:
 		spsID := 0
 		if ids := sortedKeys(hevcSPSMap); len(ids) > 0 {
@@ -849,6 +873,7 @@ func genGrammar(t *rapid.T, c *esCase, kind int) {
 		units = []unit{func(h *nalgen.Hostile) []byte { n, _ := nalgen.HEVCWritePPSH(pps, h); return n }}
 		pack = single
 		c.P &^= 1
+		c.tags = append(c.tags, hevcExtTags(nil, []nalgen.HEVCPPSTree{*pps})...)
 	case gHEVCSlice, gHEVCSample, gHEVCStream:
 		sps, pps, slice, us, up := esgen.HEVCGenSliceSet(t)
 		if kind == gHEVCSlice {
@@ -867,6 +892,7 @@ func genGrammar(t *rapid.T, c *esCase, kind int) {
 		default:
 			su, pu := hevcSetUnits(sps, pps)
 			units = append(su, pu...)
+			c.tags = append(c.tags, hevcExtTags(sps, pps)...)
 			if esgen.HEVCPct(t, 40, "with-sei") {
 				par := hevcSEIParams(&sps[us].SPS)
 				u, tags := genSEIUnit(t, par, hostile)
@@ -886,6 +912,7 @@ func genGrammar(t *rapid.T, c *esCase, kind int) {
 	case gHEVCConf:
 		vps, sps, pps := esgen.HEVCGenConfSets(t)
 		_, pu := hevcSetUnits(nil, pps)
+		c.tags = append(c.tags, hevcExtTags([]nalgen.HEVCSPSTree{*sps}, pps)...)
 		units = append([]unit{
 			func(h *nalgen.Hostile) []byte { return nalgen.HEVCWriteVPSH(vps, h) },
 			func(h *nalgen.Hostile) []byte { n, _ := nalgen.HEVCWriteSPSH(sps, h); return n },
